@@ -128,9 +128,16 @@ def evalCase (j : Json) : JR (Ex.R Val × Expr) := do
   | .error x => pure (.error x, e)
   | .ok env => pure (← statement env ctx e, e)
 
+/-- the rendered text of the case (the very characters the real library parses), lexed with the model's terminals
+    and parsed with the model's PEG, gives the tree of the case -/
+def charsOk (j : Json) (e : Expr) : Bool :=
+  match fieldOpt j "text" with
+  | some (Json.str t) => (match parseChars t.toList with | some x => exprBeq x e | none => false)
+  | _ => true
+
 def handle (j : Json) : JR Json := do
   let (r, e) ← evalCase j
-  pure (Json.mkObj (outcomeJson r ++ [("rt", Json.bool (roundTrips e))]))
+  pure (Json.mkObj (outcomeJson r ++ [("rt", Json.bool (roundTrips e && charsOk j e)), ("soft_lx", Json.bool (charsOk j e))]))
 
 def nameJson : NameOutcome → Json
   | .formatError => "format-error"
